@@ -6,6 +6,7 @@ import (
 	"fmt"
 	"go/types"
 	"math"
+	"os"
 	"strings"
 	"time"
 
@@ -110,6 +111,10 @@ func (m *Machine) installExterns() {
 			m.call(a[0], nil, site)
 			return false
 		},
+		"vEach": func(m *Machine, a []value, site ssa.Instruction) value {
+			m.ex.each(func() { m.call(a[0], nil, site) })
+			return nil
+		},
 		"vNoMerge": func(m *Machine, a []value, site ssa.Instruction) value {
 			old := m.noMerge
 			m.noMerge = true
@@ -139,6 +144,10 @@ func (m *Machine) installExterns() {
 			return isSymbolic(a[0])
 		},
 		"vNative": func(m *Machine, a []value, site ssa.Instruction) value { return false },
+		"vDump": func(m *Machine, a []value, site ssa.Instruction) value {
+			fmt.Fprintf(os.Stderr, "DUMP %v = %v   [pos=%d]\n", a[0], describe(a[1].(Iface).v), m.ex.pos)
+			return nil
+		},
 		"vNote": func(m *Machine, a []value, site ssa.Instruction) value {
 			return nil
 		},
